@@ -80,6 +80,10 @@ func main() {
 		runRootPatch(cfg)
 	case "c13":
 		runC13(cfg)
+	case "c10":
+		runC10(cfg)
+	case "c16":
+		runC16(cfg)
 	default:
 		fmt.Fprintln(os.Stderr, "unknown VERIF_MODE", mode)
 		os.Exit(2)
